@@ -62,7 +62,8 @@ type idtPoint struct {
 var idtDims = map[string][]string{
 	"sig":  {"rs-k0", "rs-other", "ps-k0", "es-e0", "none", "hs-pub", "nokid", "unknownkid", "emptykid"},
 	"keys": {"alg", "noalg-mutated", "noalg-raw", "useenc", "usesig"},
-	"iss":  {"ok", "wrong", "missing"},
+	// near misses of the configured issuer (one trailing slash more, upper-cased, a suffix, one character less): equality is exact
+	"iss": {"ok", "wrong", "missing", "slash", "upper", "suffix", "short"},
 	// additional audiences: a configured trusted one, a named untrusted one, the EMPTY STRING (the value of every unset string
 	// option of the deployment), the deployment's resource indicator (RFC 8707 restricts the access token, not the ID token), the
 	// client id twice, a trusted one next to an untrusted one, the provider's issuer, the trusted one first / without the client id
@@ -190,6 +191,10 @@ func idtMint(p idtPoint, now time.Time, idtNonce string) (raw string, model stri
 	case "wrong":
 		claims["iss"] = "http://evil-issuer"
 		mIss = hx("http://evil-issuer")
+	case "slash", "upper", "suffix", "short":
+		v := map[string]string{"slash": idpIssuer + "/", "upper": strings.ToUpper(idpIssuer), "suffix": idpIssuer + ".evil", "short": idpIssuer[:len(idpIssuer)-1]}[p.iss]
+		claims["iss"] = v
+		mIss = hx(v)
 	}
 	switch p.sub {
 	case "ok":
